@@ -63,7 +63,7 @@ def gen(r, tier):
         for _ in range(r.randint(1, 2)):
             icmps.append({"t": round(r.uniform(0, 4), 4) if r.chance(0.7) else round(r.uniform(4, 260), 3),
                           "client": r.randrange(nclients)})
-    return {"nclients": nclients, "reqs": reqs, "icmps": icmps}
+    return {"nclients": nclients, "reqs": reqs, "icmps": icmps, "same_host": r.chance(0.3)}
 
 
 def systematic(tier):
@@ -149,7 +149,13 @@ def execute(sim, scn):
 
     loop.run_until_complete(setup())
     srv = (common.SERVER_IP, 5683)
-    clients = [Client(sim, common.PEER_IPS[i], 5683) for i in range(scn["nclients"])]
+    if scn.get("same_host"):
+        # several client processes on one host: one IP address, different ports -- different endpoints
+        clients = [Client(sim, common.PEER_IPS[0], 5683 + i) for i in range(scn["nclients"])]
+        if len(clients) > 1:
+            sim.probe("clients_share_a_host")
+    else:
+        clients = [Client(sim, common.PEER_IPS[i], 5683) for i in range(scn["nclients"])]
     same_mid = {}
     ndup = 0
     tokens = {}
